@@ -119,6 +119,17 @@ func toIdentRefList(base []*meta.Identity, v interface{}) (val.IdentRefList, err
 			refs = append(refs, ref)
 		}
 		return refs, nil
+	case []interface{}:
+		// e.g. JSON array
+		refs := make([]val.IdentRef, len(x))
+		for i, item := range x {
+			ref, err := toIdentRef(base, item)
+			if err != nil {
+				return nil, err
+			}
+			refs[i] = ref
+		}
+		return refs, nil
 	}
 	return nil, fmt.Errorf("could not coerce '%v' into identref list", v)
 }
